@@ -5,6 +5,10 @@ V = os.path.dirname(os.path.dirname(os.path.abspath(__file__)))
 ids = [json.loads(l)["id"] for l in open(os.path.join(V, "properties.jsonl"))]
 
 CHECKS = {
+ "C04": dict(cat="exploration", design="§4 C04",
+   technique="differential testing (run vs compile+execute) over the example corpus, Hypothesis-generated programs of every feature area and an exhaustive enumeration of format-special string literals",
+   text="For every .ms file of the example corpus, for programs drawn from the generators of C01/C07/C08/C12/C13/C15 and the two-module failing programs of C17, and exhaustively for all string literals up to length 3 (quick, plus a seeded sample of length 4; thorough: all 22 621 up to length 4) over the format-special alphabet in escaped and raw spelling (as print operand, concatenation operand and map key), stdout and exit class of `run` must equal those of `compile` + `execute`; the string programs must also reproduce the bytes computed from the decoded strings. Exploration of program space; exhaustive for the string alphabet to the stated length in the thorough tier.",
+   note="Object addresses are normalised; for corpus programs lines that print maps/lists are compared as character multisets (hash order). The instruction-dump comparison of never-executed code is not implemented (observational equivalence only)."),
  "C17": dict(cat="exploration", design="§4 C17",
    technique="property-based testing: enumerated + Hypothesis-generated (failure kind x call chain) programs with a trace/banner/exit-status oracle",
    text="Each of 18 defined dynamic failures is placed at call depth 0-6 below chains mixing functions, closures, methods, list.map callbacks and functions of an imported module, optionally under if/while/from blocks; the run must print exactly the prescribed lines, exit with status 1 (not 101/134), show the FATAL RUNTIME ERROR banner and a trace whose function entries are exactly the active chain innermost-first down to __module__ (labels learnt from the program's own `print f` lines), and a failed assert must name file:line:col of that assert. Every kind x every single chain-element kind x depth 0-2 is enumerated; deeper chains are sampled.",
